@@ -27,7 +27,6 @@ import (
 	"github.com/google/gce-tcb-verifier/keys"
 	sops "github.com/google/gce-tcb-verifier/sign/ops"
 	styp "github.com/google/gce-tcb-verifier/sign/types"
-	"go.uber.org/multierr"
 )
 
 var (
@@ -97,15 +96,24 @@ func Key(ctx context.Context) (string, error) {
 	}
 	req := &keyRequest{ca: c.CA, manager: c.Manager}
 
-	// The steps of rotation store intermediate results in the request
-	// for the error handling to sequence cleanly.
-	if err := multierr.Combine(
-		req.createNewSigningKeyVersion(ctx),
-		req.getCurrentInfo(ctx),
-		req.signAndAdd(ctx),
-		req.updatePrimaryAndDestroy(ctx),
-		req.finalize(ctx),
-	); err != nil {
+	// Each step depends on the success of the previous ones. The old key is only destroyed once the
+	// new key and its certificate are durably recorded as primary.
+	if err := req.createNewSigningKeyVersion(ctx); err != nil {
+		return "", err
+	}
+	if err := req.getCurrentInfo(ctx); err != nil {
+		return "", err
+	}
+	if err := req.signAndAdd(ctx); err != nil {
+		return "", err
+	}
+	if err := req.updatePrimary(ctx); err != nil {
+		return "", err
+	}
+	if err := req.finalize(ctx); err != nil {
+		return "", err
+	}
+	if err := req.destroyPrevious(ctx); err != nil {
 		return "", err
 	}
 
@@ -160,18 +168,24 @@ func (r *keyRequest) signAndAdd(ctx context.Context) error {
 	return err
 }
 
-func (r *keyRequest) updatePrimaryAndDestroy(ctx context.Context) error {
+func (r *keyRequest) updatePrimary(ctx context.Context) error {
 	if r.kver == "" || r.mut == nil {
 		return fmt.Errorf("cannot update primary with signing key %q, mutation %v", r.kver, r.mut)
 	}
 	r.mut.SetPrimarySigningKeyVersion(r.kver)
+	return nil
+}
 
-	// Destroy the old version if it existed.
-	if r.currentVersion != "" {
-		output.Infof(ctx, "Destroying previous signing key %q", r.currentVersion)
-		if err := r.manager.DestroyKeyVersion(ctx, r.currentVersion); err != nil {
-			return err
-		}
+// destroyPrevious destroys the old version if it existed. It must only be called after the
+// mutation that makes the new version primary is finalized.
+func (r *keyRequest) destroyPrevious(ctx context.Context) error {
+	if r.currentVersion == "" {
+		return nil
+	}
+	output.Infof(ctx, "Destroying previous signing key %q", r.currentVersion)
+	if err := r.manager.DestroyKeyVersion(ctx, r.currentVersion); err != nil {
+		return fmt.Errorf("rotated to %q but could not destroy previous signing key %q: %w",
+			r.kver, r.currentVersion, err)
 	}
 	return nil
 }
